@@ -31,8 +31,11 @@ func runSpecialLeaf(c *core.Ctx) {
 			c.Undecided(load.FnName(fn), fn.Pos(), "special-case printer does not have the (err, printer, isLeaf) signature")
 			continue
 		}
-		errP, leafP := fn.Params[0], fn.Params[2]
-		sx.EachInstr(fn, func(in ssa.Instruction) {
+		leafP := fn.Params[2]
+		reg := regionOf(fn)
+		reg.each(func(in ssa.Instruction) {
+			// the printer's error, as the function holding the instruction knows it
+			errP := reg.paramFor(in.Parent(), fn.Params[0])
 			call, ok := in.(*ssa.Call)
 			if !ok {
 				return
@@ -52,13 +55,13 @@ func runSpecialLeaf(c *core.Ctx) {
 				c.Ob(load.FnName(fn)+": redact.Safe(<sentinel>.Error())", call.Pos(), true, "the text declared safe is the constant text of a standard-library sentinel ("+why+")")
 				return
 			}
-			if x != ssa.Value(errP) {
+			if errP == nil || x != ssa.Value(errP) {
 				return // typed cases (runtime.Error, syscall.Errno, ...): R-TAINT's contract table
 			}
 			nA++
 			// The error's own text: safe only when it is a leaf AND its text equals a sentinel's text.
 			// A match by Is/IsAny is not enough: an Is(error) bool method can claim equivalence with any text.
-			lits := dominatingLits(call.Block())
+			lits := reg.lits(call.Block())
 			leafOK, textOK := hasLit(lits, leafP, false), false
 			for _, l := range lits {
 				bin, ok := l.V.(*ssa.BinOp)
